@@ -51,6 +51,8 @@ func checkC18(c *Ctx) {
 	entries := reloadEntries(p)
 	c.Rule("C18.R11", "a reload changes the running system only inside its commit critical section: every store into a field (or a map held in a field) of a struct type the runtime state can hold that is reachable from a reload entry executes with the write lock held or targets an object the reload itself created (allocated there, returned by a constructor, or handed in fresh by every caller) — nothing the running state already holds is re-configured in place before the swap")
 	checkReloadPreparesFreshObjects(c, "C18.R11", entries)
+	c.Rule("C18.R12", "whatever the running state derives from the configuration at start-up, a reload derives again: every runtimeState field that a function reachable from the state's construction stores with a value depending on a config.Compiled is also stored — or updated in place from the new config.Compiled — by a function reachable from each reload entry (an index, limit table or switch that is only rebuilt by a start-up-only or test-only path keeps answering for the old configuration)")
+	checkReloadRederives(c, "C18.R12", entries)
 	c.Floor("C18.R1", "reload_entry_functions", len(entries), 1)
 	for _, entry := range entries {
 		ename := "app." + entry.Name()
